@@ -526,9 +526,13 @@ impl<'a> Peripheral<'a> {
             }
             PeripheralState::ValidateConfig => {
                 let address = self.address;
-                self.retry_count = 0;
+                // Only a diagnostics response answers the request.  Anything else (for example a
+                // stray short confirmation) counts as a failed attempt, so that a peripheral which
+                // never sends the right answer is eventually declared offline and set up afresh.
+                let mut answered = false;
                 let (new_state, event) =
                     if let Some(diag) = self.handle_diagnostics_response(fdl, &telegram) {
+                        answered = true;
                         if diag.flags.contains(DiagnosticFlags::PARAMETER_FAULT) {
                             log::warn!("Peripheral #{} reports a parameter fault!", address);
                             // TODO: Going to `Offline` here will just end in a loop.
@@ -559,6 +563,9 @@ impl<'a> Peripheral<'a> {
                     } else {
                         (PeripheralState::ValidateConfig, None)
                     };
+                if answered {
+                    self.retry_count = 0;
+                }
                 self.state = new_state;
                 event
             }
